@@ -67,7 +67,14 @@ func runSolver(ctx context.Context, s solverSpec, file string, timeoutS int) sol
 }
 
 // solveOne races the solvers on one obligation; the first definitive answer wins.
+// quickOnly: obligations expected not to discharge (listed known findings) and covers get one short round
+var knownFindingObls = map[string]bool{}
+
 func solveOne(file string, timeoutS int, seed int) solveResult {
+	return solveOneR(file, timeoutS, seed, true)
+}
+
+func solveOneR(file string, timeoutS int, seed int, secondRound bool) solveResult {
 	ctx, cancel := context.WithCancel(context.Background())
 	defer cancel()
 	ch := make(chan solveResult, len(solvers))
@@ -104,7 +111,7 @@ func solveOne(file string, timeoutS int, seed int) solveResult {
 		}
 	}
 	// second round: the same query with other random seeds (guards against unlucky heuristics)
-	if last.result == "timeout" || last.result == "unknown" {
+	if secondRound && (last.result == "timeout" || last.result == "unknown") {
 		type sr struct{ r solveResult }
 		ch2 := make(chan solveResult, 4)
 		ctx2, cancel2 := context.WithCancel(context.Background())
@@ -196,8 +203,12 @@ func solveAll(vcs []*VC, dir string, timeoutS int, seed int, keep bool) {
 				if j.o.Cover && to > 4 {
 					to = 4
 				}
-				r := solveOne(file, to, seed)
-				if r.result != "unsat" && !j.o.Cover && j.o.Kind != "auto-frame" && strings.Contains(txt[:80], "(sliced)") && os.Getenv("VERIF_NOFALLBACK") == "" {
+				quick := j.o.Cover || knownFindingObls[j.o.Name]
+				if knownFindingObls[j.o.Name] && to > 10 {
+					to = 10
+				}
+				r := solveOneR(file, to, seed, !quick)
+				if r.result != "unsat" && !quick && !j.o.Cover && j.o.Kind != "auto-frame" && strings.Contains(txt[:80], "(sliced)") && os.Getenv("VERIF_NOFALLBACK") == "" {
 					// the cone of influence may have dropped a needed fact: decide over the whole prefix
 					j.o.unsliced = true
 					atomic.AddInt64(&sliceFallbacks, 1)
